@@ -29,7 +29,7 @@ CLAIMED = {
     },
 
     "C12": {
-        "text": 'Narrow claim, decided on every run: writer/reader codec agreement of the column-name convention used by the pruning/joining path (templates folded from f-strings vs partition_col/startswith expectations), disjoint classifier prefixes, tolerance routing per column class with identity at zero tolerance, and lock-step of columns and goals. The (1+t) bound itself is numeric and not decided.',
+        "text": 'Narrow claim, decided on every run: writer/reader codec agreement of the column-name convention used by the pruning/joining path (templates folded from f-strings vs partition_col/startswith expectations), disjoint classifier prefixes, tolerance routing per column class with identity at zero tolerance, and lock-step of columns and goals. The (1+t) bound itself is numeric and not decided. A tolerance keyword at a filter call is bound to the same tolerance of the caller (the absolute step never from a relative tolerance); the comparison table is built position-wise (every column re-indexed or an array).',
         "design_ref": "DESIGN.md section 3, C12", "note": _NOTE,
         "technique": 'static analysis: template folding of writer f-strings vs reader specs (codec agreement), branch pairing rule (ast)',
     },
@@ -41,7 +41,7 @@ CLAIMED = {
     },
 
     "C14": {
-        "text": "Decided on every run: threshold sequences end exact (constant evaluation), dirty rounds only feed filters and the returned join is the final round's, early returns only through the for-else of the oversubscription scan, exceptions swallowed only on non-final rounds, the optimality thresholder is a one-sided filter (|= of <= per column, &= across reference points), and memories are left untracked only under data-derived bounds <= 1. Equality of the staged and exact fronts is a value property.",
+        "text": "Decided on every run: threshold sequences end exact (constant evaluation), dirty rounds only feed filters and the returned join is the final round's, early returns only through the for-else of the oversubscription scan, exceptions swallowed only on non-final rounds, the optimality thresholder is a one-sided filter (|= of <= per column, &= across reference points), and memories are left untracked only under data-derived bounds <= 1. Equality of the staged and exact fronts is a value property. The dirty-round pruning job works on new groups (make_pareto(inplace=False), no store into the groups it was given).",
         "design_ref": "DESIGN.md section 3, C14", "note": _NOTE,
         "technique": 'static analysis: constant evaluation of threshold lists, CFG control-dependence / return placement, operator-shape rules (ast)',
     },
@@ -81,20 +81,20 @@ CLAIMED = {
         "text": "Structural clauses decided on every run: BuffetStats field schema vs the reflective combinators, ComputeStats field coverage, the prefix->operator and "
                 "skip-set tables of the combinators, net-of-skipped accessor discipline at every raw counter read outside the analysis, values-per-action precedence chain, "
                 "exhaustive node-type dispatch paired with its own analysis functions, energy/leak/latency/total formula shapes in normal form, and values->actions scales. "
-                "The loop-nest execution semantics behind the counts is a value property and is not decided.",
+                "The loop-nest execution semantics behind the counts is a value property and is not decided. The skipped-first discipline also covers analyze_compute (every *_skipped_first_* field only under the compute own skip_initial).",
         "design_ref": "DESIGN.md section 3, C05", "note": _NOTE,
         "technique": "static analysis: schema/table agreement, who-may-read discipline, guard-sequence extraction, polynomial normal forms (ast)",
     },
     "C30": {
         "text": "Decided on every run: registry exhaustive over the TopologySpec enum with signature-compatible overrides; relevancy dispatch exhaustive and coherent between the "
                 "two sibling models with all result fields assigned on every returning path; closed forms of multicast/unicast cost, mesh and all-to-all totals, max hops and "
-                "max link traffic compared in canonical polynomial form (helpers inlined) with the forms route enumeration gives for a non-distributed source.",
+                "max link traffic compared in canonical polynomial form (helpers inlined) with the forms route enumeration gives for a non-distributed source. The stride is read from the fan-out table under the key it was written with; a memoised helper of the network model must key its cache on every parameter it reads.",
         "design_ref": "DESIGN.md section 3, C30", "note": _NOTE,
         "technique": "static analysis: registry/enum exhaustiveness, path rule (definite assignment), polynomial normal-form comparison (ast/CFG)",
     },
     "C28": {
         "text": "Decided on every run: the reduction operator of every accumulation in Mappings.energy/actions/latency/resource_usage (sum vs max per axis, guarded by the "
-                "per_* flags, component axis before Einsum axis) and the presence of both column families (tensor-keyed incl. None for compute; per-component leak) in energy().",
+                "per_* flags, component axis before Einsum axis) and the presence of both column families (tensor-keyed incl. None for compute; per-component leak) in energy(). In the loops that scale / gather per-action counts every loop-local is assigned on all paths of the iteration before it is read (no value from the previous iteration).",
         "design_ref": "DESIGN.md section 3, C28", "note": _NOTE,
         "technique": "static analysis: accumulation-statement classification against an operator table, control-dependence on flags (ast/CFG)",
     },
@@ -117,7 +117,7 @@ CLAIMED = {
     "C25": {
         "text": "Decided on every run: isinstance dispatch chains over architecture nodes are exhaustive over the node union declared on Branch.nodes, end in a raise and "
                 "route every class to the intended arm (class-hierarchy simulation, subclass-after-superclass detection); only the requested compute is appended, "
-                "flattening stops after it, Forks without it are skipped; the node list is append-only in declaration order; the top-level entry validates the result.",
+                "flattening stops after it, Forks without it are skipped; the node list is append-only in declaration order; the top-level entry validates the result. ArchNode.find never ends the search on a miss in one child (the caller default is not forwarded into the recursive call returned from the child loop).",
         "design_ref": "DESIGN.md section 3, C25", "note": _NOTE,
         "technique": "static analysis: exhaustiveness/ordering of isinstance chains via class-hierarchy simulation + control-dependence rules (ast/CFG)",
     },
@@ -163,7 +163,7 @@ CLAIMED = {
                 "attributes, callee parameters) flow analysis shows that no builtin set / free_symbols order reaches an order-sensitive sink in "
                 "mapper/model/util/frontend (~200 use sites); nothing is sorted by hash/id/uuid; oset/fzs re-wrap every set-returning method; the disk-cache key "
                 "covers all parameters of the cached function. Right level: schedule/hash-seed dependence is invisible to a suite that runs one schedule "
-                "and one seed, but visible as data flowing from an unordered source to an ordered sink.",
+                "and one seed, but visible as data flowing from an unordered source to an ordered sink. Jobs that run in-process with one worker and on pickled copies with several must not prune shared groups in place (W2).",
         "design_ref": "DESIGN.md section 3, C20",
         "note": _NOTE + " Floating-point non-associativity of commutative accumulation is not modelled.",
         "technique": "static analysis: source-to-sink dataflow for unordered collections (inter-procedural, ast), typestate of unordered streams, sibling/wrapper coherence checks",
